@@ -14,7 +14,15 @@ pub trait Deb822LikeParagraph: FromIterator<(String, String)> {
 
 impl Deb822LikeParagraph for crate::lossy::Paragraph {
     fn get(&self, key: &str) -> Option<String> {
-        crate::lossy::Paragraph::get(self, key).map(|v| v.to_string())
+        // Like the lossless paragraph, which reports the value lines that have
+        // content: a value that starts on the line after the field name does
+        // not begin with an empty line, whichever paragraph type was read
+        crate::lossy::Paragraph::get(self, key).map(|v| {
+            v.split('\n')
+                .filter(|line| !line.is_empty())
+                .collect::<Vec<_>>()
+                .join("\n")
+        })
     }
 
     fn set(&mut self, key: &str, value: &str) {
